@@ -310,3 +310,39 @@ def mutants(rnd, progs, per_prog=2):
             if m is not None:
                 out.append((k, m))
     return out
+
+
+def coverage_templates():
+    """`match` without a default arm whose type arms split a union that sits INSIDE a type constructor (element type of an
+    array, content of a cell, a tuple component, a struct field, a function's result): `[int | float]` is not `[int] | [float]`
+    - a value mixing the members has the outer type and none of the arms' types.  The checker must reject these matches; one it
+    accepts is run on such a value (no arm covers it: the interpreter's `panic!()` after the arms)."""
+    T = []
+    A, B = INT, FLOAT
+    va, vb = I(1), ("f", 2.5)
+    U = multi(A, B)
+    arm = lambda t, k: ("ty", "x", t, ("block", [I(k)]))
+    idf = lambda t: ("fndecl", "idu", [("v", t)], t, [("return", V("v"))])
+    shapes = [
+        (arr(U), [arr(A), arr(B)], ("array", [va, vb])),
+        (arr(arr(U)), [arr(arr(A)), arr(arr(B))], ("array", [("array", [va, vb])])),
+        (tup(arr(U), INT), [tup(arr(A), INT), tup(arr(B), INT)], ("tuple", [("array", [va, vb]), I(0)])),
+        (arr(tup(U, INT)), [arr(tup(A, INT)), arr(tup(B, INT))], ("array", [("tuple", [va, I(0)]), ("tuple", [vb, I(0)])])),
+        (cell(U), [cell(A), cell(B)], ("mut", U, va)),
+        (arr(cell(U)), [arr(cell(A)), arr(cell(B))], ("array", [("mut", U, va)])),
+        (("struct", (("k", arr(U)),)), [("struct", (("k", arr(A)),)), ("struct", (("k", arr(B)),))], ("struct", [("k", ("array", [va, vb]))])),
+        (multi(INT, arr(multi(INT, STR))), [INT, arr(INT), arr(STR)], ("array", [I(1), ("s", "a")])),
+    ]
+    for ty, arms, val in shapes:
+        m = lambda scrut: ("match", scrut, [arm(t, k + 1) for k, t in enumerate(arms)])
+        # the scrutinee's static type comes from a declared parameter / result type, the value mixes the members
+        T.append([idf(ty), ("set", "a", ("call", V("idu"), [val])), ("set", "r", m(V("a"))), V("r")])
+        T.append([("fndecl", "g", [("a", ty)], INT, [("return", m(V("a")))]), ("call", V("g"), [val])])
+        # arms in the other order, and with a value arm in front (value arms never count towards coverage)
+        T.append([idf(ty), ("set", "a", ("call", V("idu"), [val])),
+                  ("set", "r", ("match", V("a"), [arm(t, k + 1) for k, t in reversed(list(enumerate(arms)))])), V("r")])
+    # the scrutinee typed by an array literal / concatenation itself
+    T.append([("set", "a", ("array", [va, vb])), ("match", V("a"), [arm(arr(A), 1), arm(arr(B), 2)])])
+    T.append([("set", "n", ("pre", "deref", ("mut", INT, I(1)))), ("set", "a", ("bin", "add", ("array", [V("n")]), ("array", [vb]))),
+              ("match", V("a"), [arm(arr(A), 1), arm(arr(B), 2)])])
+    return T
